@@ -61,7 +61,7 @@ def check_lpm(rep, F, where, p, T, start, q, fmt, none="None", rules=("R02.1", "
         rep.bad(rules[3], where, "mutates", "%s changes the map" % where, config=F.config)
 
 
-def run_config(ctx, rep, cfg, F, funcs=None, floor=3000):
+def run_config(ctx, rep, cfg, F, funcs=None, floor=1000):
     n = 0
     for short, (fmt, rule) in (funcs if funcs is not None else LPM).items():
         if short not in F.short:
